@@ -578,6 +578,37 @@ def rule_M2(ctx):
                 "the delta appended to the stored contexts is not what finalize_context "
                 "returned: %s - a published variable that is dropped or altered here changes "
                 "which value wins where branches meet" % bad))
+    # the producer: what finalize_context returns as the published delta is the dict its
+    # publish loop filled, never a second value derived from it by comparing with the context
+    fc = prog.find_function(MODELS + ".TaskSpec.finalize_context")
+    if fc is None:
+        raise AnalysisError("TaskSpec.finalize_context vanished")
+    rets = [r for r in ast.walk(fc.node) if isinstance(r, ast.Return) and isinstance(
+        r.value, ast.Tuple) and len(r.value.elts) >= 2]
+    if not rets:
+        raise AnalysisError("finalize_context no longer returns (out_ctx, new_ctx, errors)")
+    for r in rets:
+        el = r.value.elts[1]
+        inst = (fc.qualname, "returned delta")
+        if not isinstance(el, ast.Name):
+            res.violated(inst, _f("M2", fc, r, "returned delta",
+                                  "finalize_context returns %s as the published delta instead "
+                                  "of the dict its publish loop filled" % untag(unparse(el))))
+            continue
+        ds = [d for d in ast.walk(fc.node) if isinstance(d, ast.Assign) and any(
+            isinstance(t, ast.Name) and t.id == el.id for t in d.targets)]
+        odd = [d for d in ds if not ((isinstance(d.value, ast.Dict) and not d.value.keys) or (
+            isinstance(d.value, ast.Call) and callee_name(d.value) == "dict"
+            and not d.value.args and not d.value.keywords))]
+        if odd:
+            res.violated(inst, _f(
+                "M2", fc, odd[0], "returned delta",
+                "the published delta is re-assigned (%s) after the publish loop filled it: "
+                "a published variable that is dropped or altered here changes which value "
+                "wins where branches meet, and what the next task sees"
+                % untag(norm_src(odd[0]))))
+        else:
+            res.holds(inst)
     return res
 
 
@@ -719,3 +750,48 @@ def _atoms_wo_raises(fg, node):
                 continue
         out.extend(g.atoms)
     return out
+
+
+# ====================================================================== P16
+def rule_P16(ctx):
+    """Every new execution record of a task with a retry policy gets its retry entry (count,
+    delay, tally 0) by evaluating the policy against the contexts this very execution starts
+    from: in add_task_state the call of setup_retry_in_task_state is conditional on 'the task
+    has a retry policy' and nothing else, and nothing else stores the record's 'retry' key
+    there.  A retry entry taken over from an earlier record of the same task carries the count
+    and delay of an earlier visit of a loop."""
+    from sa.paths import fmt_atoms
+    res = RuleResult("P16", "a new task record's retry entry is always evaluated afresh from "
+                            "the record's own inbound contexts")
+    prog = ctx.prog
+    f = prog.function("conducting.WorkflowConductor.add_task_state")
+    fg = FuncGuards(prog, f)
+    calls = [c for c in calls_in(f.node) if callee_name(c) == "setup_retry_in_task_state"]
+    if not calls:
+        raise AnalysisError("add_task_state no longer sets up the retry entry")
+    for c in calls:
+        inst = (f.qualname, untag(norm_src(c)))
+        alts = expand_alternatives(f, fg, _atoms_wo_raises(fg, c))
+        bad = None
+        for alt in alts:
+            extra = [a for a in alt if not (a[0] == "truthy" and "task_has_retry" in str(a[1]))]
+            if extra:
+                bad = extra
+                break
+        if bad is None:
+            res.holds(inst)
+        else:
+            res.violated(inst, _f(
+                "P16", f, c, "condition on the retry set-up",
+                "the retry entry of a new record is evaluated only when %s: otherwise the "
+                "record runs with a count / delay that was not evaluated from its own contexts"
+                % ", ".join(fmt_atoms(bad))))
+    for n in ast.walk(f.node):
+        if isinstance(n, ast.Assign) and any(
+                isinstance(t, ast.Subscript) and isinstance(t.slice, ast.Constant)
+                and t.slice.value == "retry" for t in n.targets):
+            res.violated((f.qualname, "store", untag(norm_src(n))), _f(
+                "P16", f, n, "store of the retry entry",
+                "add_task_state stores a retry entry itself (%s) instead of having it evaluated "
+                "from the record's inbound contexts" % untag(norm_src(n))))
+    return res
